@@ -191,7 +191,8 @@ def _expand_ret(body, bb, st, depth):
         p = op_place(rv["op"])
         if p is not None and not p["p"] and not (1 <= p["l"] <= body.arg_count):
             defs = body.defs.get(p["l"], [])
-            if defs and all(k == "assign" for (_, k, _) in defs) and body.local_name(p["l"]) is None:
+            nm = body.local_name(p["l"])
+            if defs and all(k == "assign" for (_, k, _) in defs) and (nm is None or nm.startswith("__")):
                 out = []
                 for (dbb, _, d) in defs:
                     out.extend(_expand_ret(body, dbb, d, depth + 1))
